@@ -380,6 +380,38 @@ def rand_ranges(rng, c, disjoint=False, allow_last=True, focus=None):
     return rows
 
 
+
+def scattered_range_lines(rng, c, path=None):
+    """A run of consecutive coverage pixels allocated ONE CALL AT A TIME in a shuffled order, with foreign
+    coverage pixels allocated in between (so the run's storage blocks are neither adjacent nor ascending and
+    foreign blocks lie inside their span), then ONE range row crossing the whole run.  (Seeded changes C01d /
+    C08d: a "contiguous run" shortcut of the range path that looks at the first and last block only.)"""
+    if c.ncov < 5:
+        return []
+    k = rng.randint(2, min(5, c.ncov - 2))                 # fully crossed ("middle") coverage pixels
+    b = rng.randint(0, c.ncov - k)                          # they are b .. b+k-1
+    middles = list(range(b, b + k))
+    outside = [q for q in range(c.ncov) if q < b - 1 or q > b + k]
+    foreign = rng.sample(outside, min(len(outside), rng.randint(1, 2)))
+    order = [q for q in middles if rng.random() < 0.9] + foreign
+    rng.shuffle(order)
+    if rng.random() < 0.3:                                  # the classic: first, foreign, last, inner
+        order = [middles[0]] + foreign[:1] + [middles[-1]] + middles[1:-1]
+    lines = []
+    for q in order:
+        pix = q * c.nfine + rng.randrange(c.nfine)
+        lines.append("upd %s op=replace pix=%d val=%s" % (c.name, pix, c.val(rng)))
+    lo = b * c.nfine if (b == 0 or rng.random() < 0.3) else b * c.nfine - rng.randint(1, c.nfine)
+    hi = (b + k) * c.nfine if (b + k == c.ncov or rng.random() < 0.3) else (b + k) * c.nfine + rng.randint(1, c.nfine)
+    op = rng.choice(c.ops())
+    path = path or rng.choice(['slice', 'slice', 'expand'])
+    if rng.random() < 0.15:
+        lines.append("updr %s op=replace none=1 ranges=%d:%d path=%s" % (c.name, lo, hi, path))
+    else:
+        lines.append("updr %s op=%s ranges=%d:%d val=%s path=%s" % (c.name, op, lo, hi, c.val(rng), path))
+    return lines
+
+
 def updr_line(rng, c, path=None, focus=None):
     ops = c.ops()
     op = rng.choice(ops)
